@@ -723,7 +723,16 @@ let op_connbegin opidx toks =
       let s = set_server s i sv in
       st := Some s; print_state opidx s
   | _ -> ()
-let op_connend opidx toks =
+let op_connend opidx impl_all toks =
+  (* on the implementation's own state: a server whose connection has just been established has no unanswered requests
+     (C09: it is preferred again), whatever was refused while the connection was being made *)
+  (match toks with
+   | [ srv ] when Hashtbl.length connecting > 0 ->
+       List.iter (fun t -> match parse_impl_srv t with
+           | Some (sv, (lost, _, _)) when sv = int_of_string srv ->
+               spec opidx "C09_reconnect_clears_unanswered" (lost = 0) (Printf.sprintf "server %d connected again with unanswered count %d" sv lost)
+           | _ -> ()) (impl_events impl_all "srv")
+   | _ -> ());
   match toks with
   | [ _ ] when Hashtbl.length connecting = 0 -> pr "obs %d conn-unavailable\n" opidx
   | [ srv ] ->
@@ -810,7 +819,7 @@ let run_op (opidx : int) (impl_all : string list list) (toks : string list) : bo
   | "reconnect" :: r -> op_reconnect opidx r; true
   | "srvset" :: r -> op_srvset opidx r; true
   | "connbegin" :: r -> op_connbegin opidx r; true
-  | "connend" :: r -> op_connend opidx r; true
+  | "connend" :: r -> op_connend opidx impl_all r; true
   | "cursor" :: r -> op_cursor opidx r; true
   | "cgone" :: r -> op_cgone opidx r; true
   | "srvgone" :: r -> op_srvgone opidx r; true
